@@ -4,7 +4,7 @@ Models: coq/theories/Replace.v (parser.replace, _update_equation, OperatorTempla
         coq/theories/Yaml.v (dict.from_circuit/.../add_to_dict = dump, from_yaml = load, denote).
 Theorems: coq/properties/C15.v.
 Tie (E1), four streams of cases:
-  exh  — ALL strings up to a length over {r,a,_,2,+,=,' ',(} x terms {r,rr,r_in,a} x flags through the real `replace`
+  exh  — ALL strings up to a length over {r,a,_,2,+,=,' ',(} x terms {r,rr,r_a,a} x flags through the real `replace`
          (in-process); the Coq model is evaluated exhaustively on the smaller space (expected outputs supplied as a
          list, mismatch counts computed inside Coq), on the larger space the real function is compared with the
          Python transcriptions `py_words_replace` / `py_loop` of the Coq definitions, which agree with the Coq model
@@ -19,7 +19,7 @@ from core import *
 
 NEEDS = ["Replace", "ReplaceProofs", "Yaml", "YamlProofs", "Corr"]
 ALPHA = "ra_2+= ("
-TERMS = ["r", "rr", "r_in", "a"]
+TERMS = ["r", "rr", "r_a", "a"]      # r_in of the design cannot occur over ALPHA (no i, n): r_a plays its role
 FLAGS = [(False, False), (True, False), (False, True), (True, True)]
 SEP = "|"
 
@@ -211,6 +211,24 @@ def walk(c):
         return [nodes, es + edges(c, "")]
     return [[[k, walk_node(n)] for k, n in c.nodes.items()], edges(c, "")]
 
+def raw_templates(c):
+    """the operator templates' own variable dictionaries (without node-level overrides), in traversal order"""
+    out = []
+    def node(n):
+        for op in n.operators:
+            out.append([op.name, [[v, vtext(s)] for v, s in op.variables.items()], list(op.equations)])
+    def circ(c):
+        for sub in c.circuits.values():
+            circ(sub)
+        for n in c.nodes.values():
+            node(n)
+        for e in c.edges:
+            if e[2] is not None:
+                node(e[2])
+        out.append([c.name, len(c.edges)])
+    circ(c)
+    return out
+
 def read_store(path):
     from ruamel.yaml import YAML
     d = YAML(typ="safe", pure=True).load(open(path))
@@ -269,7 +287,9 @@ def impl_yaml(case):
         c = build_circuit(case)
         if os.path.exists("x.yaml"):
             os.remove("x.yaml")
+        out["raw0"] = raw_templates(c)
         c.to_yaml("x.yaml")
+        out["raw0_after_dump"] = raw_templates(c)
         out["store"] = read_store("x.yaml")
         out["walk0_after_dump"] = walk(c)
         pyr.reset_pyrates()
@@ -421,10 +441,15 @@ def gen_yaml_case(rng, mode=None):
         return dict(name="et", ops=[[o, {"g": et_variants[vi % nvar]}]])
     def make_flat(fname, nnodes):
         nodes, lays = [], {}
+        if mode == "three":
+            nnodes = max(nnodes, 3)
+        L0 = rng.choice(LAYOUTS)
         for i in range(nnodes):
             key = "pn"[i % 2] + str(i)
             L = rng.choice(LAYOUTS)
             vi = rng.randrange(nvar)
+            if mode == "three" and i < 3:        # three nodes of one layout with three different sets of overrides
+                L, vi = L0, i
             lays[key] = L
             nodes.append([key, node_for(L, variants[vi])])
         edges = []
@@ -539,7 +564,7 @@ Definition gPar (p : circ * store * den * option den) := let '(c, st, d0, d1) :=
 def header(ctx=None):
     """D35 (update_template pops rogue variables from the base's own dict) is modelled as long as it is a listed finding;
     once it is repaired (entry dropped or status fixed) the mechanism model is the repaired behaviour: base untouched"""
-    d35_open = any(f["id"] == "C15-base-mutated" for f in known_findings("C15"))
+    d35_open = any(f["id"] == "C15-base-mutated" for f in known_findings("C15")) and os.environ.get("C15_D35") != "repaired"
     return HEADER.replace("D35_REPAIRED", "false" if d35_open else "true")
 
 def cs(s):
@@ -612,7 +637,7 @@ def c_dnode(dn):
 
 def c_den(w):
     nodes = clist([f"({cs(k)}, {c_dnode(dn)})" for k, dn in w[0]])
-    edges = clist([f"({cs(s)}, {cs(t)}, {'None' if tp is None else '(Some ' + c_dnode(tp) + ')'}, {c_attrs(at)})" for s, t, tp, at in w[1]])
+    edges = clist([f"({cs(s)}, {cs(t)}, {'(@None dnode)' if tp is None else '(Some ' + c_dnode(tp) + ')'}, {c_attrs(at)})" for s, t, tp, at in w[1]])
     return f"({nodes}, {edges})"
 
 def c_store(st):
@@ -624,20 +649,20 @@ def c_store(st):
             out.append(f"({cs(e[0])}, ENode {cbool(e[1] == 'edge')} {csl(e[2])})")
         else:
             kv = lambda l: clist([f"({cs(k)}, {cs(v)})" for k, v in l])
-            es = clist([f"({cs(s)}, {cs(t)}, {'None' if tp is None else '(Some ' + cs(tp) + ')'}, {c_attrs(at)})" for s, t, tp, at in e[4]])
+            es = clist([f"({cs(s)}, {cs(t)}, {'(@None str)' if tp is None else '(Some ' + cs(tp) + ')'}, {c_attrs(at)})" for s, t, tp, at in e[4]])
             out.append(f"({cs(e[0])}, ECirc {kv(e[2])} {kv(e[3])} {es})")
     return clist(out)
 
 def coq_yaml(case, out):
-    d1 = "None" if out.get("walk1") is None else f"(Some {c_den(out['walk1'])})"
+    d1 = "(@None den)" if out.get("walk1") is None else f"(Some {c_den(out['walk1'])})"
     return f"({coq_circ(case)}, {c_store(out['store'])}, {c_den(out['walk0'])}, {d1})"
 
-def eval_lists(ctx, tag, defs, tests, items, shard):
+def eval_lists(ctx, tag, ty, tests, items, shard):
     """evaluate the boolean tests on the items inside Coq; returns one index list (of the False ones) per test"""
     res = [[] for _ in tests]
     for s in range(0, len(items), shard):
-        body = "Definition cases := " + clist(items[s:s + shard]) + ".\n" + "".join(f"Eval vm_compute in (mismatches {t} cases).\n" for t in tests)
-        ls = parse_nat_lists(coq_eval(ctx, f"c15_{tag}_{s}", header() + defs, body))
+        body = f"Definition cases : list ({ty}) := " + clist(items[s:s + shard]) + ".\n" + "".join(f"Eval vm_compute in (mismatches {t} cases).\n" for t in tests)
+        ls = parse_nat_lists(coq_eval(ctx, f"c15_{tag}_{s}", header(), body))
         assert len(ls) == len(tests), (tag, len(ls))
         for k in range(len(tests)):
             res[k] += [s + i for i in ls[k]]
@@ -649,7 +674,8 @@ def coq_exhaustive(ctx, job, out):
     body = f"Definition ins := all_upto (L {cstr(ALPHA)}) {small}.\n"
     evals = []
     for fi, (rhs, lhs) in enumerate(FLAGS):
-        body += f"Definition outs{fi} := split_bar [] (L {cstr(out['small'][fi])}).\n"
+        outs = out["small"][fi].split(SEP)          # literals of ~20 kB (a single huge literal overflows coqc's stack)
+        body += (f"Definition outs{fi} := " + " ++ ".join(f"split_bar [] (L {cstr(SEP.join(outs[a:a + 3000]))})" for a in range(0, len(outs), 3000)) + ".\n")
         body += (f"Eval vm_compute in [List.length ins; List.length outs{fi}; "
                  f"count_bad (replace_flags is_delim {cs(term)} {cs(rep)} {cbool(rhs)} {cbool(lhs)}) ins outs{fi}; "
                  f"count_bad (fun s => Some (replace_words_sided is_delim {cs(term)} {cs(rep)} {cbool(rhs)} {cbool(lhs)} s)) ins outs{fi}].\n")
@@ -664,7 +690,7 @@ def yaml_spec_ok(out):
     if isinstance(out, dict) and "err" in out:
         return False
     return (out.get("walk1") is not None and out["walk1"] == out["walk0"] and out.get("vf1") is not None and out["vf1"] == out["vf0"]
-            and out["walk0_after_dump"] == out["walk0"])
+            and out["walk0_after_dump"] == out["walk0"] and out["raw0_after_dump"] == out["raw0"])
 
 # ====================================================================================================
 # check
@@ -701,13 +727,17 @@ def check(ctx):
     bad_spec, bad_impl, gv = [], [], {}
     stats = dict(exhaustive_real_calls=0, exhaustive_coq_evaluations=0, sided_flag_mismatches_on_exhaustive_space=0)
     # ---- exh
+    from concurrent.futures import ThreadPoolExecutor
+    with ThreadPoolExecutor(max_workers=min(4, int(os.environ.get("VERIF_JOBS", "4")))) as ex:
+        coq_res = dict(zip([i for i in exh if i not in crashed],
+                           ex.map(lambda i: coq_exhaustive(ctx, cases[i], outs[i]), [i for i in exh if i not in crashed])))
     for i in exh:
         r = outs[i]
         if i in crashed:
             continue
         stats["exhaustive_real_calls"] += r["n"]
         stats["sided_flag_mismatches_on_exhaustive_space"] += r["sided_bad"]
-        m = coq_exhaustive(ctx, cases[i], r)
+        m = coq_res[i]
         stats["exhaustive_coq_evaluations"] += 4 * m["strings"]
         # Spec = words substitution for equal flags; for one-sided flags the sided spec is known to fail (D34)
         if r["bad_spec"] or m["spec_bad"][0] or m["spec_bad"][3]:
@@ -720,7 +750,7 @@ def check(ctx):
     idx = [i for i, c in enumerate(cases) if c["kind"] == "rep" and i not in crashed]
     if idx:
         items = [f"({coq_rep(cases[i])}, {cs(outs[i])})" for i in idx]
-        bI, bS, g, pl = eval_lists(ctx, "rep", "", ["(fun p => ostr_eqb (repI (fst p)) (Some (snd p)))", "(fun p => ostr_eqb (repS (fst p)) (Some (snd p)))",
+        bI, bS, g, pl = eval_lists(ctx, "rep", "(str * str * str * bool * bool) * str", ["(fun p => ostr_eqb (repI (fst p)) (Some (snd p)))", "(fun p => ostr_eqb (repS (fst p)) (Some (snd p)))",
                                                    "(fun p => rep_guard (fst p))", "(fun p => rep_plain (fst p))"], items, 400)
         for k in bI:
             bad_impl.append(idx[k])
@@ -734,7 +764,7 @@ def check(ctx):
     idx = [i for i, c in enumerate(cases) if c["kind"] == "upd" and i not in crashed]
     if idx:
         items = [coq_upd(cases[i], outs[i]) for i in idx]
-        bI, bS, pl, nm = eval_lists(ctx, "upd", "", ["updI", "updS", "upd_plain", "upd_nomut"], items, 150)
+        bI, bS, pl, nm = eval_lists(ctx, "upd", "list str * list (str * str) * list link * list lout", ["updI", "updS", "upd_plain", "upd_nomut"], items, 150)
         noplain = set(pl)
         for k in bI:
             bad_impl.append(idx[k])
@@ -751,7 +781,7 @@ def check(ctx):
     idx = [i for i, c in enumerate(cases) if c["kind"] == "yaml" and i not in crashed]
     if idx:
         items = [coq_yaml(cases[i], outs[i]) for i in idx]
-        bSt, bD0, bD1, rt, gW, gR, gV, gK, gP = eval_lists(ctx, "yaml", "", ["yamlStore", "yamlDen0", "yamlDen1", "yamlRT", "gWF", "gRen", "gVar", "gKind", "gPar"], items, 40)
+        bSt, bD0, bD1, rt, gW, gR, gV, gK, gP = eval_lists(ctx, "yaml", "circ * store * den * option den", ["yamlStore", "yamlDen0", "yamlDen1", "yamlRT", "gWF", "gRen", "gVar", "gKind", "gPar"], items, 40)
         assert not gW, "generator produced a dictionary with duplicate keys"
         for k in set(bSt) | set(bD0) | set(bD1):
             bad_impl.append(idx[k])
@@ -768,11 +798,17 @@ def check(ctx):
             ok = yaml_spec_ok(outs[i])
             if not ok:
                 bad_spec.append(i)
+            if outs[i]["raw0_after_dump"] != outs[i]["raw0"] or outs[i]["walk0_after_dump"] != outs[i]["walk0"]:
+                gv.pop(i, None)              # to_yaml altered the templates it was given: no known finding covers that
             # the model's own verdict on the round trip must be the real one wherever the real denotations were compared
             if ok and k in model_rt_bad:
                 bad_impl.append(i)
         stats["yaml_roundtrip_changed_by_model"] = len(model_rt_bad)
     bad_spec, bad_impl = sorted(set(bad_spec)), sorted(set(bad_impl))
+    # a known finding describes exactly what the mechanism model (with the defect in it) does: a case outside a guard on
+    # which the real code does NOT do what the model says is a different failure and is not attributed to the finding
+    for i in bad_impl:
+        gv.pop(i, None)
     kinds = {k: sum(1 for c in cases if c["kind"] == k) for k in ("exh", "rep", "upd", "yaml")}
     ctx.note(f"E1: {kinds}; exhaustive: {stats['exhaustive_real_calls']} calls of the real replace, {stats['exhaustive_coq_evaluations']} evaluations of the "
              f"Coq model; impl-vs-Impl mismatches {len(bad_impl)}, impl-vs-Spec mismatches {len(bad_spec)} (outside guards: "
